@@ -272,6 +272,86 @@ func scenario(s scn) sched.Scenario {
 	}}
 }
 
+// twinScenario: two NETCONF sessions of one process at the same time; each call must get the reply its own server
+// sent for its own message-id (state shared between drivers shows here).
+func twinScenario(version string, echo bool, pre int) sched.Scenario {
+	return sched.Scenario{Name: fmt.Sprintf("twin/v=%s/echo=%v/pre=%d", version, echo, pre), Run: func(w *sched.W) {
+		cfg := cm.Cfg("nc.read", "chan.read.")
+		cfg.NoPreAlt = pre == 0
+		cfg.NoIdleAlt = true
+		cfg.Horizon = 400 * cm.Ms
+		w.Explore(cfg, sched.Bounds{Pre: pre}, func(e *sched.Env) {
+			type sess struct {
+				srv  *dev.NCServer
+				res  []callRes
+				open error
+			}
+			caps := []string{dev.Cap10}
+			if version == "1.1" {
+				caps = append(caps, dev.Cap11)
+			}
+			var ss []*sess
+			for k := 0; k < 2; k++ {
+				k := k
+				s := &sess{}
+				s.srv = &dev.NCServer{Hello: dev.HelloDoc(caps, strconv.Itoa(7+k)), Echo: echo}
+				s.srv.Behave = func(i int, req dev.NCReq) (string, dev.NCBehavior) {
+					return `<rpc-reply xmlns="` + dev.NSBase + `" message-id="` + req.ID + `"><data><srv>` + strconv.Itoa(k) + `</srv><n>` + strconv.Itoa(i) + `</n></data></rpc-reply>`, dev.ReplyNow
+				}
+				tr := dev.NewFake(e, s.srv)
+				s.srv.Out = tr.Inject
+				tr.NextEnd = s.srv.NextEnd
+				ss = append(ss, s)
+				name := "client"
+				if k == 1 {
+					name = "client2"
+				}
+				e.Go(name, func() {
+					d, err := netconf.NewDriver("dev", append(cm.BaseOpts(tr, cm.Ms, 50*cm.Ms, 0), options.WithNetconfPreferredVersion(version))...)
+					if err != nil {
+						s.open = err
+						return
+					}
+					if s.open = d.Open(); s.open != nil {
+						return
+					}
+					for i := 0; i < 3; i++ {
+						r, err := d.GetConfig("running")
+						cr := callRes{err: err}
+						if r != nil {
+							cr.result, cr.input = r.Result, string(r.Input)
+						}
+						s.res = append(s.res, cr)
+					}
+				})
+			}
+			e.OnFinish(func() {
+				if e.Verdict != "" {
+					e.Violate("c08:"+e.Verdict, "twin sessions did not finish: %s", e.HangInfo)
+					return
+				}
+				for k, s := range ss {
+					if s.open != nil {
+						e.Violate("c08:open-failed", "session %d: %v", k, s.open)
+						continue
+					}
+					for i, c := range s.res {
+						want := "<srv>" + strconv.Itoa(k) + "</srv><n>" + strconv.Itoa(i) + "</n>"
+						e.Observe("s%d call%d err=%s", k, i, cm.ErrClass(c.err))
+						if c.err != nil || !strings.Contains(c.result, want) || !strings.Contains(c.result, `message-id="`+strconv.Itoa(101+i)+`"`) {
+							sig := "c08:twin-reply-lost-or-foreign"
+							if strings.Contains(c.result, "<srv>"+strconv.Itoa(1-k)+"</srv>") {
+								sig = "c08:twin-reply-of-other-session"
+							}
+							e.Violate(sig, "session %d call %d: err=%v result %q", k, i, c.err, c.result)
+						}
+					}
+				}
+			})
+		})
+	}}
+}
+
 func scenarios(tier string) []sched.Scenario {
 	var out []sched.Scenario
 	maxN := 3
@@ -346,6 +426,12 @@ func scenarios(tier string) []sched.Scenario {
 				}
 				out = append(out, scenario(scn{hist: h, echo: echo, version: v, b: sched.Bounds{Env: 1}, big: true}))
 			}
+		}
+	}
+	// two sessions at once
+	for _, v := range []string{"1.0", "1.1"} {
+		for _, echo := range []bool{false, true} {
+			out = append(out, twinScenario(v, echo, 1))
 		}
 	}
 	// replies that land around the expiry of their call's timer, with the reply poller held at its hand-over
